@@ -397,7 +397,7 @@ End Dom.
 (* the fuel n*n+2 is never exhausted *)
 Theorem dominance_terminates : forall g, wf_cfg g -> exists d, dominance g = Some d.
 Proof.
-  intros g WF. destruct (dominance_ok g WF) as [d [H _]]. exists d; auto.
+  intros g WF. destruct (dominance_ok g) as [d [H _]]. exists d; auto.
 Qed.
 
 Theorem dominates_iff : forall g d a b, wf_cfg g -> dominance g = Some d ->
